@@ -306,9 +306,16 @@ class Harness(cm.BaseB):
             if name == "set_diti_unchecked":
                 # an earlier, legal S record: only possible at the start or after a break, otherwise a comment
                 if len(wl) == 0 or wl[-1] == "B;":
-                    wl.set_diti(2)
+                    try:
+                        wl.set_diti(2)
+                    except Exception as e:
+                        return "set_diti:refused:ok", repr(case), [("C09/representable-call-refused", f"set_diti(2) directly after {list(wl)[-1:]} raised {type(e).__name__}")]
                 else:
                     wl.comment("filler")
+                continue
+            if name.startswith("list:"):
+                if name != "list:pop" or len(wl):
+                    getattr(wl, name[5:])(*a)
                 continue
             getattr(wl, name)(*a, **kw)
         before = list(wl)
@@ -404,6 +411,12 @@ DITI_EMITTERS = [
     ("commit", [], {}),
     ("set_diti_unchecked", [], {}),
     ("evo_wash", [], {"tips": [1], "waste_location": (52, 2), "cleaner_location": (52, 1)}),
+    # the worklist is a list: records merged in or taken out through plain list methods
+    ("list:extend", [["C;merged", "A;P;;;1;;10.00;;;;"]], {}),
+    ("list:extend", [["D;P;;;1;;10.00;;;;", "W1;", "B;"]], {}),
+    ("list:__iadd__", [["B;", "C;merged"]], {}),
+    ("list:pop", [], {}),
+    ("list:insert", [10**6, "B;"], {}),
 ]
 
 
